@@ -292,7 +292,9 @@ def main(argv):
             'known_failing': [{'obligation': f.id, 'entry': k['obligation']} for f, k in known_hits],
             'undecided': undecided,
             'unstable_queries': unstable,
-            'witness_probes': probe_results,
+            # bounded: each probe enumerates the finite set of inputs stated at the top of replay/src/bin/<probe>.rs against the real
+            # crates; they are not part of the proof and never counted as discharged obligations
+            'witness_probes': [dict(p, kind='bounded (not counted as proved)') for p in probe_results],
             'samples': samples,
             'expansion': xinfo,
             'explanation': P.get('explanation', ''),
